@@ -16,6 +16,7 @@ import (
 	"github.com/elastic/go-libaudit/v2/auparse"
 	"github.com/elastic/go-libaudit/v2/vshim/sched"
 	"github.com/elastic/go-libaudit/v2/vshim/vtime"
+	"github.com/elastic/go-libaudit/v2/vshim/vuser"
 
 	"verif/engine/ev"
 	"verif/engine/explore"
@@ -66,7 +67,42 @@ var pool = [][]string{
 		`type=CONFIG_CHANGE msg=audit(1492037306.000:76): auid=1000 ses=3 op=add_rule key="k3" list=4 res=0`,
 		`type=SYSCALL msg=audit(1492037306.000:76): arch=c000003e syscall=59 success=no exit=-13 a0=7 a1=0 a2=0 a3=0 items=0 ppid=1 pid=3003 auid=1000 uid=0 gid=0 euid=0 suid=0 fsuid=0 egid=0 sgid=0 fsgid=0 tty=pts0 ses=3 comm="sh" exe="/bin/sh" key=(null)`,
 	},
+	{ // g9: a login under the ALIAS name of uid 1000 (name -> id lookup)
+		`type=USER_AUTH msg=audit(1492037307.000:77): pid=600 uid=0 auid=4294967295 ses=4294967295 msg='op=PAM:authentication acct="al" exe="/usr/sbin/sshd" hostname=h addr=10.0.0.9 terminal=ssh res=success'`,
+	},
+	{ // g10: a syscall by uid/gid 1000 (id -> name lookups) whose key field holds several keys, one of them twice in a row (0x01 separated)
+		`type=SYSCALL msg=audit(1492037308.000:78): arch=c000003e syscall=159 success=yes exit=0 a0=1 a1=1 a2=0 a3=0 items=0 ppid=1 pid=1075 auid=1000 uid=1000 gid=1000 euid=1000 suid=1000 fsuid=1000 egid=1000 sgid=1000 fsgid=1000 tty=(none) ses=4 comm="ntpd" exe="/usr/sbin/ntpd" key=6101610162`,
+	},
+	{ // g11: a group deleted under the ALIAS name of gid 1000 (group name -> id lookup)
+		`type=DEL_GROUP msg=audit(1492037309.000:79): pid=700 uid=0 auid=1000 ses=3 msg='op=delete-group acct="st" exe="/usr/sbin/groupdel" hostname=h addr=10.0.0.9 terminal=pts/0 res=success'`,
+	},
 }
+
+// accountDB is the simulated account database behind the os/user seam (engine/vshim/vuser):
+// like a real passwd/group file it is NOT one-to-one - uid 1000 has a primary name and an
+// alias, gid 1000 likewise - and some ids / names are unknown.  Every answer is a pure
+// function of the question, so the outcome of resolving one message may not depend on what
+// else went through the caches before.
+func accountDB() *vuser.DB {
+	return &vuser.DB{
+		Users: []user.User{
+			{Uid: "0", Gid: "0", Username: "root"},
+			{Uid: "1000", Gid: "1000", Username: "alice"},
+			{Uid: "1000", Gid: "1000", Username: "al"},
+			{Uid: "1001", Gid: "1001", Username: "bob"},
+			{Uid: "48", Gid: "48", Username: "apache"},
+		},
+		Groups: []user.Group{
+			{Gid: "0", Name: "root"},
+			{Gid: "1000", Name: "staff"},
+			{Gid: "1000", Name: "st"},
+			{Gid: "1001", Name: "ops"},
+			{Gid: "42", Name: "shadow"},
+		},
+	}
+}
+
+func init() { vuser.Install(accountDB()) }
 
 func parseGroup(lines []string) []*auparse.AuditMessage {
 	var out []*auparse.AuditMessage
@@ -156,11 +192,21 @@ func runC15History(hist []c15Op) (viol []c15Viol, outcome string) {
 					events = append(events, &held{e: e, snap: evSnap(e, nil), from: op.Arg})
 				}
 				log = append(log, fmt.Sprintf("%v=%d", op, len(got)))
-			case "resolve":
-				if op.Arg >= len(events) {
-					return
+			case "resolve", "cr":
+				var h *held
+				if op.Kind == "cr" {
+					e, _ := aucoalesce.CoalesceMessages(msgs[op.Arg])
+					if e == nil {
+						return
+					}
+					h = &held{e: e, snap: evSnap(e, nil), from: op.Arg}
+					events = append(events, h)
+				} else {
+					if op.Arg >= len(events) {
+						return
+					}
+					h = events[op.Arg]
 				}
-				h := events[op.Arg]
 				aucoalesce.ResolveIDsFromCaches(h.e, users, groups)
 				// the same on a fresh equal event
 				fe, _ := aucoalesce.CoalesceMessages(parseGroup(pool[h.from]))
@@ -244,6 +290,11 @@ func c15Histories(maxLen int) [][]c15Op {
 	for e := 0; e < 3; e++ {
 		ops = append(ops, c15Op{"resolve", e})
 	}
+	for g := range pool { // coalesce + resolve in one step: reaches "resolved a, then resolved b" within 2 ops
+		if g != 5 {
+			ops = append(ops, c15Op{"cr", g})
+		}
+	}
 	var out [][]c15Op
 	var rec func(cur []c15Op, nEvents int)
 	rec = func(cur []c15Op, nEvents int) {
@@ -258,7 +309,7 @@ func c15Histories(maxLen int) [][]c15Op {
 			if o.Kind == "resolve" && o.Arg >= nEvents {
 				continue
 			}
-			if o.Kind == "coalesce" && o.Arg != 5 {
+			if (o.Kind == "coalesce" || o.Kind == "cr") && o.Arg != 5 {
 				ne++
 			}
 			rec(append(cur, o), ne)
@@ -271,25 +322,30 @@ func c15Histories(maxLen int) [][]c15Op {
 // ---- concurrent coalescing / ID resolution through the SHARED global caches ---------
 
 type concHarness struct {
-	nThreads int
-	results  []string
-	mu       sync.Mutex
+	nThreads  int
+	perThread int // events per thread (1 or 2)
+	results   []string
+	mu        sync.Mutex
 }
 
-// concLine: a single-record event with uid-type IDs only, so that every ID
-// lookup of one thread goes to the user cache (Go's random map iteration then
-// only permutes lookups behind the same mutex and the step trace stays
-// deterministic); threads share uid 0 and collide pairwise on the auid.
+// concLine: a single-record event with ONE id (uid), so that Go's random map
+// iteration over User.IDs cannot permute the lookups of a thread and the step
+// trace stays deterministic whatever the lookups lock; threads collide pairwise
+// on the uid (1000 / 1001, both resolvable in the simulated account database).
 func concLine(i int) string {
-	return fmt.Sprintf(`type=USER_LOGIN msg=audit(1492037300.000:%d): pid=500 uid=0 auid=%d ses=9 msg='op=login id=%d exe="/usr/sbin/sshd" hostname=h addr=10.0.0.9 terminal=ssh res=success'`, 70+i, 1000+i%2, 1000+i%2)
+	return fmt.Sprintf(`type=USER_LOGIN msg=audit(1492037300.000:%d): pid=500 uid=%d ses=9 msg='op=login id=%d exe="/usr/sbin/sshd" hostname=h addr=10.0.0.9 terminal=ssh res=success'`, 70+i, 1000+i%2, 1000+i%2)
 }
 
-func concBody(i int) string {
-	e, err := aucoalesce.CoalesceMessages(parseGroup([]string{concLine(i)}))
-	if e != nil {
-		aucoalesce.ResolveIDs(e) // global caches
+func concBody(i, n int) string {
+	var out []string
+	for k := 0; k < n; k++ {
+		e, err := aucoalesce.CoalesceMessages(parseGroup([]string{concLine(i + k)}))
+		if e != nil {
+			aucoalesce.ResolveIDs(e) // global caches
+		}
+		out = append(out, evSnap(e, err))
 	}
-	return evSnap(e, err)
+	return strings.Join(out, "\n")
 }
 
 func (h *concHarness) Body(x *sched.Exec) {
@@ -298,7 +354,7 @@ func (h *concHarness) Body(x *sched.Exec) {
 	for i := 0; i < h.nThreads; i++ {
 		i := i
 		x.Go(fmt.Sprintf("t%d", i), func() {
-			r := concBody(i)
+			r := concBody(i, h.perThread)
 			h.mu.Lock()
 			h.results[i] = r
 			h.mu.Unlock()
@@ -306,7 +362,7 @@ func (h *concHarness) Body(x *sched.Exec) {
 	}
 }
 
-var seqExpected = map[int]string{}
+var seqExpected = map[[2]int]string{}
 
 func (h *concHarness) Finish(res *sched.Result) (string, []explore.Finding) {
 	if res != nil && (res.Deadlock || res.Panic != nil) {
@@ -314,8 +370,8 @@ func (h *concHarness) Finish(res *sched.Result) (string, []explore.Finding) {
 	}
 	var f []explore.Finding
 	for i, r := range h.results {
-		if r != seqExpected[i] {
-			f = append(f, explore.Finding{Sig: "concurrent-result-differs", What: fmt.Sprintf("thread %d's events differ from the sequential ones:\n  %s\nvs\n  %s", i, r, seqExpected[i])})
+		if want := seqExpected[[2]int{i, h.perThread}]; r != want {
+			f = append(f, explore.Finding{Sig: "concurrent-result-differs", What: fmt.Sprintf("thread %d's events differ from the sequential ones:\n  %s\nvs\n  %s", i, r, want)})
 		}
 	}
 	if res != nil {
@@ -355,7 +411,7 @@ func c15RaceMain() {
 			go func() {
 				defer wg.Done()
 				<-start
-				_ = concBody(i)
+				_ = concBody(i, 2)
 			}()
 		}
 		close(start)
@@ -510,23 +566,29 @@ func checkC15(tier, raceBin string) int {
 	// concurrent part
 	vtime.Install()
 	for i := 0; i < 4; i++ {
-		seqExpected[i] = concBody(i)
+		seqExpected[[2]int{i, 1}] = concBody(i, 1)
+		seqExpected[[2]int{i, 2}] = concBody(i, 2)
 	}
 	var schedules int64
-	for _, nt := range []int{2, 3} {
-		if nt == 3 && tier != "thorough" {
-			// quick: 3 threads with preemption bound 2
+	for _, shape := range [][2]int{{2, 1}, {3, 1}, {2, 2}, {3, 2}} {
+		nt, per := shape[0], shape[1]
+		// whole schedule tree when it closes within the cap, else every schedule within the preemption bound
+		mk := func() explore.Harness { return &concHarness{nThreads: nt, perThread: per} }
+		cap := int64(5000)
+		if tier == "thorough" {
+			cap = 200000
 		}
-		nt := nt
 		bound := -1
-		if nt == 3 {
+		e := &explore.Explorer{Bound: -1, MaxExec: cap, Horizon: 20000, NewHarness: mk}
+		r := e.Explore()
+		if !r.Exhausted && len(r.Findings) == 0 {
 			bound = 2
 			if tier == "thorough" {
 				bound = 3
 			}
+			e = &explore.Explorer{Bound: bound, MaxExec: 2000000, Horizon: 20000, NewHarness: mk}
+			r = e.Explore()
 		}
-		e := &explore.Explorer{Bound: bound, MaxExec: 2000000, Horizon: 20000, NewHarness: func() explore.Harness { return &concHarness{nThreads: nt} }}
-		r := e.Explore()
 		schedules += r.Executions
 		run.Add("traces_validated_against_impl", r.Executions)
 		run.Add("transitions", r.Executions*int64(r.MaxChoices+1))
@@ -538,9 +600,9 @@ func checkC15(tier, raceBin string) int {
 				run.Errorf("%s", f.What)
 				continue
 			}
-			run.Report(ev.Violation{Sig: "C15 " + f.Sig, What: f.What, Replay: map[string]interface{}{"threads": nt, "schedule": f.Schedule}})
+			run.Report(ev.Violation{Sig: "C15 " + f.Sig, What: f.What, Replay: map[string]interface{}{"threads": nt, "events_per_thread": per, "schedule": f.Schedule}})
 		}
-		run.Set(fmt.Sprintf("concurrent_%d_threads", nt), map[string]interface{}{"schedules": r.Executions, "max_choice_points": r.MaxChoices, "preemption_bound": bound, "whole_tree": r.Exhausted})
+		run.Set(fmt.Sprintf("concurrent_%d_threads_%d_events_each", nt, per), map[string]interface{}{"schedules": r.Executions, "max_choice_points": r.MaxChoices, "preemption_bound": bound, "whole_tree": r.Exhausted})
 	}
 	run.Set("concurrent_schedules", schedules)
 	// race pass
@@ -552,8 +614,11 @@ func checkC15(tier, raceBin string) int {
 		raceRun(run, raceBin, "C15", map[string]int{"Reps": reps})
 	}
 	run.Set("exhaustive", true)
-	run.Set("explanation", fmt.Sprintf("every call history of <=%d ops over {CoalesceMessages(g) for 8 pooled message groups, ResolveIDsFromCaches(e_i) on a previously returned event} on persistent message objects; after every op: inputs' Data/Tags/ToMapStr unchanged, the event equals the one from a fresh parse of the same lines (differential), every earlier event equals its snapshot; plus every interleaving (2 threads) / every schedule within the preemption bound (3 threads) of threads coalescing and resolving IDs through the shared global caches (scheduler points at the cache mutex), compared with the sequential results; data races sampled by a free-running -race pass. states = distinct observation logs, transitions = ops executed.", maxLen))
-	run.Assume("ID lookups go to the sandbox's /etc/passwd and /etc/group through os/user; all comparisons are differential so the actual names do not matter")
+	run.Set("explanation", fmt.Sprintf("every call history of <=%d ops over {CoalesceMessages(g), CoalesceMessages(g)+ResolveIDsFromCaches for 12 pooled message groups (incl. user and group ALIAS names, ids with two names, a multi-key tag list with a repeated key), ResolveIDsFromCaches(e_i) on a previously returned event} on persistent message objects, per-history caches, against a simulated non-injective account database behind the os/user seam (vuser); ResolveIDs outcome compared with the same event resolved through FRESH caches; after every op: inputs' Data/Tags/ToMapStr unchanged, the event equals the one from a fresh parse of the same lines (differential), every earlier event equals its snapshot; plus every interleaving (2 threads) / every schedule within the preemption bound (3 threads) of threads coalescing and resolving IDs through the shared global caches (scheduler points at the cache mutex), compared with the sequential results; data races sampled by a free-running -race pass. states = distinct observation logs, transitions = ops executed.", maxLen))
+	run.Assume("ID lookups are answered by the simulated account database (engine/vshim/vuser) that the instrumenter routes os/user.Lookup* to: first matching row wins, aliases (two names for one id) present, answers never change during a run")
+	if d := vuser.Installed(); d != nil {
+		run.Set("account_database_lookups_in_main_process", d.Lookups)
+	}
 	return run.Finish()
 }
 
